@@ -17,7 +17,7 @@ StrLit(s) == NTpl("q", <<NTLit(s)>>)
 BoolAttr == SAttr("b", TBool, FALSE)
 
 LeafSpecs == {SAttr("a", TNum, FALSE), SAttr("a", TNum, TRUE), SAttr("a", TStr, FALSE), SAttr("a", TDyn, FALSE),
-              BoolAttr, SLit(1), SLabel(0),
+              BoolAttr, SLit(1), SLabel(0), STuple(<<SLabel(0), SLabel(1)>>),
               SBlockAttrs("p", TStr, FALSE), SBlockAttrs("p", TDyn, FALSE), SBlockAttrs("p", TNum, TRUE)}
 
 LitFor(t) == IF t = TNum THEN {SLit(1)} ELSE IF t = TStr THEN {SLit(2)} ELSE {}
@@ -41,6 +41,9 @@ ItemKinds ==
     \cup {IAttr("b", NBool(TRUE)), IAttr("c", NNum(2)), IBlock("r", <<>>, <<>>)}
     \cup {IBlock("p", ls, b) : ls \in {<<>>, <<"x">>}, b \in Inners}
     \cup {IBlock("q", ls, b) : ls \in {<<"x">>, <<"y">>, <<"x", "y">>}, b \in Inners}
+    \* blocks with three and four labels; siblings that share their first three labels
+    \cup {IBlock("q", ls, b) : ls \in {<<"x", "y", "z">>, <<"x", "y", "w">>, <<"x", "y", "z", "v1">>, <<"x", "y", "z", "v2">>, <<"x", "u", "z", "v1">>},
+                               b \in {<<>>, <<IAttr("a", NNum(2))>>}}
 
 EmptyEnv == [x \in {} |-> Null(TDyn)]
 NoPred == R(Oom, FALSE)
